@@ -118,14 +118,18 @@ CHECKS = {
         "For each detector family a ladder of 3-4 values of the detection parameter is advanced in lock-step on every history of the "
         "alphabet up to the stated depth under one seed schedule; every ordered (looser, stricter) pair is judged: the stricter run "
         "never reports its first drift before the looser one. Warning clause: drift positions identical, tighter warnings are a "
-        "subset of looser warnings on the whole multi-epoch history.",
+        "subset of looser warnings on the whole multi-epoch history. Besides the depth-bounded ladders: fine ladders around 1/(number of "
+        "simulated statistics) under several seed schedules for the bootstrap / permutation / Monte-Carlo thresholds, and long "
+        "deviation-bounded histories (60-160 samples, every single replacement) for ladders that end in the legal extreme of the parameter (delta = 0, alpha = 0).",
         "Trusted: identical seeding of all ladder members; one recorded finding (Page-Hinkley threshold 0 vs >0 on negative running means).",
     ),
     "C18": (
         "exhaustive enumeration of all row permutations of one (two) batch(es) in short batch histories, differential oracle",
         "Reference plus up to three test batches from a small menu; at one position (two for batches of <= 4 rows) the batch is "
         "replaced by every one of its non-identity row permutations (up to 119); original and permuted run use identical seeds; "
-        "divergences must agree to 1e-12 and, where the property says so, the complete decision trace must be identical.",
+        "divergences must agree to 1e-12 and, where the property says so, the complete decision trace must be identical. Batches of "
+        "6-11 rows and of 70 001-300 007 rows (anything positional that only starts beyond a size) get a stated family of structured "
+        "permutations (transpositions, rotations, reversal, evens-then-odds, riffle) instead of all n!.",
         "Trusted: the recomputation of the kdq divergence from to_plotly_dataframe() and of the NNPS distance through the public partitioner API.",
     ),
     "C03": (
